@@ -791,6 +791,20 @@ theorem chUpdate_slur_keys (hpl : PlainHooks song root) (b i : Nat) (hi : i < 3)
               · exact absurd h' hno
           rw [k3, hoff]; simpa using hsl
 
+/-- after an update that did not fail no key-on is pending (any channel kind) -/
+theorem chUpdate_keyOn_false (n : Nat) (g : G) (c : Ch) :
+    (chUpdate d song n g c).1.err.isSome = true ∨ (chUpdate d song n g c).2.1.keyOn = false := by
+  unfold chUpdate chAfter
+  simp only
+  split
+  · rename_i h; exact Or.inl h
+  · right
+    unfold chKeyOn
+    simp only
+    split
+    · rfl
+    · rename_i h; simpa using h
+
 /-- **One update of a PSG melody channel.** -/
 theorem chUpdate_psg (hpl : PlainHooks song root) (i : Nat) (hi : i < 3)
     (n : Nat) (g : G) (c : Ch) (hbase : Base root c) (hk : c.kind = .psg i) (hg : g.err = none) (hkon : c.keyOn = false)
